@@ -3,6 +3,56 @@ from vf import ch
 from . import l2, l17
 
 
+def trace_frames(run):
+    """frame obligations from the access traces of the real code (every attribute/subscript store, container
+    mutation and call on process-wide state or on the schema arguments is seen by the rewriter of vf.conc)"""
+    import json
+    from vf import conc
+    from . import c18ops, C18
+    try:
+        recs = C18._record_all(run)
+    except conc.NotInstrumentable as e:
+        run.obligation("trace.instrumentation", "inconclusive", f"source construct the access rewriter does not handle: {e}", paths=1)
+        return
+    fresh = {}
+    for a, r in recs.items():
+        ws = [e for e in r["events"] if e.kind == "W"]
+        ob = f"trace.frame.{a}"
+        if not ws:
+            run.obligation(ob, "discharged", f"{len(r['events'])} accesses to shared state, none of them a write", paths=1)
+            continue
+        verdict, detail = "discharged", ""
+        arg_ws = [e for e in ws if e.label.startswith("<shared argument")]
+        if arg_ws:
+            text = c18ops.INPUTS.format(a=a)
+            path = run.write_replay(text)
+            ok, out = run.run_replay(path)
+            if ok:
+                what = f"{a} writes into the schema object it was given: {arg_ws[0].what}[{arg_ws[0].key}] at {arg_ws[0].file.split('/')[-1]}:{arg_ws[0].line}"
+                verdict, detail = run.violation(ob, f"inputs:{a}", what, text), what
+        st_ws = [e for e in ws if not e.label.startswith("<shared argument")]
+        nrep = 0
+        if st_ws and verdict == "discharged":
+            for b, rb in recs.items():
+                if not any(x.conflicts(w) for x in rb["events"] for w in st_ws):
+                    continue
+                if b not in fresh:
+                    fresh[b] = c18ops.fresh(b)
+                text = c18ops.HISTORY.format(a=a, b=b, expect=json.dumps(fresh[b]))
+                path = run.write_replay(text)
+                ok, out = run.run_replay(path)
+                nrep += 1
+                if ok:
+                    what = (f"{a} writes process-wide state ({st_ws[0].what}[{st_ws[0].key}] at {st_ws[0].file.split('/')[-1]}:{st_ws[0].line}) "
+                            f"that {b} reads: {out[-300:]}")
+                    verdict, detail = run.violation(ob, f"leak:{st_ws[0].label}", what, text), what
+                    break
+        if verdict == "discharged":
+            detail = (f"{len(ws)} writes to shared state ({sorted({e.label for e in ws})[:3]}); {nrep} two-call histories over every "
+                      "operation that touches those cells replayed in fresh interpreters without a change of result")
+        run.obligation(ob, verdict, detail, paths=1 + nrep)
+
+
 def run(run, tier):
     inv = l17.inventory()
     run.sample(dict(kind="state inventory (recomputed from the imported modules)", cells=[f"{m}.{n}" for (m, n) in sorted(inv)][:60]))
@@ -29,8 +79,12 @@ def run(run, tier):
         v = run.violation("history.pairs", f"history:{f[0]}:{f[3]}", f"result depends on an earlier call: {f!r}", text)
         run.obligation("history.pairs", v if v != "inconclusive" else "inconclusive", repr(f)[:300], paths=1)
         break
+    trace_frames(run)
     l2.describe(run, tier)
-    run.bounds += [f"state inventory: {len(inv)} module-level mutable objects and mutable default arguments of fastavro.* (listed in samples)",
+    run.bounds += ["access traces (rewritten source, vf.conc): every operation of the scenario catalogue shared with C18 is recorded from "
+                   "the initial state; an operation without any write to process-wide state or to its schema arguments cannot influence a "
+                   "later call; every write found is followed up by a two-call history replayed in a fresh interpreter",
+                   f"state inventory: {len(inv)} module-level mutable objects and mutable default arguments of fastavro.* (listed in samples)",
                    f"frame obligations (CrossHair, symbolic datum with an optional mutation so that failing calls are included): operations "
                    f"{l17.FRAME_OPS} x schemas {l17.FRAME_SCHEMAS if tier == 'thorough' else l17.FRAME_QUICK}, raw or parsed schema object",
                    f"histories: induction from the frame obligations (no call changes state that a later call can read); every ordered "
